@@ -121,6 +121,10 @@ def text_cases(c, chunkings):
         if i % 2: h[rng.randrange(len(h))] = rng.choice(b"gGxX -\x00")
         else: h = h[:-1]
         add({"kind": "hexdec", "text": bytes(h)}, {"kind": "hexdec", "text": list(h)})
+    # every octet value in each position of a two-character hex text, and inside a base64 quantum: the alphabets are exactly the standard ones
+    for v in range(256):
+        for t in (bytes([v, 0x34]), bytes([0x34, v]), bytes([0x61, 0x62, v, 0x39])):
+            add({"kind": "hexdec", "text": t}, {"kind": "hexdec", "text": list(t)})
     # PEM with capacities around the data size
     for n in ([1, 47, 48, 49, 100, 600] if c.quick else [1, 2, 47, 48, 49, 95, 96, 97, 100, 600, 4096]):     # pem_write refuses empty data
         d = rb(n)
